@@ -98,6 +98,12 @@ func classify(c Case) (labels []string, nontrivial bool) {
 	for k := range set {
 		labels = append(labels, k)
 	}
+	for _, k := range c.Carry {
+		if k > 0 {
+			labels = append(labels, "next-message-partially-received")
+			break
+		}
+	}
 	if c.Pipelined {
 		labels = append(labels, "pipelined")
 	} else {
